@@ -676,6 +676,19 @@ func Now() time.Time {
 	return s.cfg.StartTime.Add(time.Duration(s.now))
 }
 
+// ThreadCount returns the number of managed threads created so far in this
+// execution. Thread ids are assigned in creation order, so a thread whose id
+// is >= an earlier ThreadCount() was created after that moment (oracles).
+func ThreadCount() int {
+	s := S
+	if s == nil {
+		return 0
+	}
+	s.mu.Lock()
+	defer s.mu.Unlock()
+	return len(s.threads)
+}
+
 // CurrentThread returns the id of the running thread (-1 in passthrough).
 func CurrentThread() int {
 	s := S
